@@ -67,7 +67,13 @@ class Result:
                                 "detail": detail})
 
     def floor(self, name, got, want):
-        self.floors.append((name, got, want))
+        """vacuity guard.  `want` is the instance count confirmed by hand on
+        the pinned tree; the check fails as analysis-broken only below 75 %
+        of it (exact for counts <= 3), so that an ordinary refactor which
+        removes a few instances does not trip it while a rule that stops
+        matching still does."""
+        eff = want if want <= 3 else max(3, int(want * 0.75))
+        self.floors.append((name, got, eff))
 
     def undecided_obligation(self, rid, key, why):
         self.undecided.append({"rule": rid, "instance": key, "why": why})
